@@ -2,6 +2,7 @@ import ScriggoV.Drv.Util
 import ScriggoV.Model.VMInt
 import ScriggoV.Model.Eval
 import ScriggoV.Model.Compile
+import ScriggoV.Model.CompileCond
 /-! line-protocol handler for C01 (stage one). Requests (after the leading `C01`):
 
 * `bin <op> <kind> <x> <y>`        — `x op y`, both of `kind`
@@ -16,6 +17,14 @@ import ScriggoV.Model.Compile
   notation of the disassembler (`Program.Disassemble`), the final `Move … i(n+1)` included
 * `crun <n> <v1> … <vn> <expr>`   — the VM model run on that code from canonical registers; answers
   like `eval` (the value read from the result register at the static type)
+* `ccompile <ni> <nb> <cond>`     — the model of `emitCondition` on `func f(v0 T0, …, b0 bool, …, s0 string, …) { if <cond> {…} }`
+  with `ni` integer and `nb` bool variables (integer registers `1…ni`, `ni+1…ni+nb`; string
+  variable `j` in string register `j+1`): the code up to and including the final `If`
+* `ccrun <ni> <v…> <nb> <b…> <ns> <len…> <cond>` — the model VM on that code: `ok true|false` / `err <fault>`,
+  then the reference semantics `evalCond` the same way
+
+`<cond>` is `clit true|false`, `ccmp <op> <expr> <expr>`, `lenl <op> <s> <expr>`, `lenr <op> <expr> <s>`,
+`cnot <bval>`, `cval <bval>` with `<bval>` = `bcmp <op> <expr> <expr>` | `bvar <i>`.
 
 The first five answer `ok <vm> <spec>`: what the generated VM terms compute on the canonical
 registers of the operands (`ok:<value>`, `okNC:<value>` if the result register is not canonical,
@@ -95,6 +104,97 @@ def compiled (n : Nat) (e : Eval.Expr) : List Compile.Instr × List (BitVec 64) 
   let o := Compile.compileK (· + 1) e ⟨n + 1, []⟩
   (o.code ++ [.move o.src (n + 1)], o.st.consts)
 
+/-! ### conditions -/
+open ScriggoV.Gen.VMInt in
+def lenCondName : LenCond → String
+  | .lenEqual => "LenEqual" | .lenNotEqual => "LenNotEqual" | .lenLess => "LenLess"
+  | .lenLessEqual => "LenLessEqual" | .lenGreater => "LenGreater" | .lenGreaterEqual => "LenGreaterEqual"
+
+open ScriggoV.Compile ScriggoV.Gen.VMInt in
+def testText : Test → String
+  | .int a .zero _ => "If Zero " ++ regName a
+  | .int a .notZero _ => "If NotZero " ++ regName a
+  | .int a c y => "If " ++ regName a ++ " " ++ condName c ++ " " ++ srcName false y
+  | .len s c y => "If s" ++ toString s ++ " " ++ lenCondName c ++ " " ++ srcName false y
+
+def exprOf (toks : List String) : Option (Eval.Expr × List String) := Eval.parse (toks.length + 1) toks
+
+open ScriggoV.Compile in
+def bvalOf : List String → Option (BVal × List String)
+  | "bcmp" :: op :: rest => do
+    let op ← Eval.cmpOfName op
+    let (a, rest) ← exprOf rest
+    let (b, rest) ← exprOf rest
+    pure (.cmp op a b, rest)
+  | "bvar" :: i :: rest => do
+    let i ← i.toNat?
+    pure (.var i, rest)
+  | _ => none
+
+open ScriggoV.Compile in
+def condOfTokens : List String → Option CondE
+  | ["clit", "true"] => some (.lit true)
+  | ["clit", "false"] => some (.lit false)
+  | "ccmp" :: op :: rest => do
+    let op ← Eval.cmpOfName op
+    let (a, rest) ← exprOf rest
+    let (b, rest) ← exprOf rest
+    if !rest.isEmpty then none
+    pure (.cmp op a b)
+  | "lenl" :: op :: s :: rest => do
+    let op ← Eval.cmpOfName op
+    let s ← s.toNat?
+    let (e, rest) ← exprOf rest
+    if !rest.isEmpty then none
+    pure (.lenL op s e)
+  | "lenr" :: op :: rest => do
+    let op ← Eval.cmpOfName op
+    let (e, rest) ← exprOf rest
+    match rest with
+    | [s] => do
+      let s ← s.toNat?
+      pure (.lenR op e s)
+    | _ => none
+  | "cnot" :: rest => do
+    let (v, rest) ← bvalOf rest
+    if !rest.isEmpty then none
+    pure (.not v)
+  | "cval" :: rest => do
+    let (v, rest) ← bvalOf rest
+    if !rest.isEmpty then none
+    pure (.val v)
+  | _ => none
+
+open ScriggoV.Compile in
+/-- decidable version of `CondTyped` -/
+def condTyped : CondE → Bool
+  | .lit _ => true
+  | .cmp op a b => Eval.typeOf (.cmp op a b) == some .bool
+  | .lenL _ _ e => Eval.typeOf e == some (.int .int)
+  | .lenR _ e _ => Eval.typeOf e == some (.int .int)
+  | .not (.cmp op a b) => Eval.typeOf (.cmp op a b) == some .bool
+  | .not (.var _) => true
+  | .val (.cmp op a b) => Eval.typeOf (.cmp op a b) == some .bool
+  | .val (.var _) => true
+
+def bools : List String → Option (List Bool)
+  | [] => some []
+  | "true" :: rest => (bools rest).map (true :: ·)
+  | "false" :: rest => (bools rest).map (false :: ·)
+  | _ => none
+
+def nats : List String → Option (List Nat)
+  | [] => some []
+  | s :: rest => do
+    let n ← s.toNat?
+    let ns ← nats rest
+    pure (n :: ns)
+
+def showBool : Except Fault Bool → Option String
+  | .ok b => some ("ok " ++ (if b then "true" else "false"))
+  | .error .other => none
+  | .error f => some ("err " ++ f.name)
+
 def handle : List String → Option String
   | ["bin", op, k, x, y] => do
     let op ← Eval.binOfName op
@@ -162,6 +262,40 @@ def handle : List String → Option String
       | .bool => pure ("ok " ++ (Eval.Val.bool (rf' (n + 1) != 0)).render)
     | .error .other => none
     | .error f => pure ("err " ++ f.name)
+  | "ccompile" :: ni :: nb :: toks => do
+    let ni ← ni.toNat?
+    let nb ← nb.toNat?
+    let c ← condOfTokens toks
+    if !(condTyped c && Compile.inModel c) then none
+    let o := Compile.compileCond (· + 1) (· + (ni + 1)) (· + 1) c ⟨ni + nb, []⟩
+    pure ("ok " ++ "; ".intercalate (o.code.map (instrText o.st.consts) ++ [testText o.test]))
+  | "ccrun" :: ni :: rest => do
+    let ni ← ni.toNat?
+    if rest.length < ni + 1 then none
+    let env ← ints (rest.take ni)
+    let rest := rest.drop ni
+    let nb ← (← rest.head?).toNat?
+    let rest := rest.drop 1
+    if rest.length < nb + 1 then none
+    let benv ← bools (rest.take nb)
+    let rest := rest.drop nb
+    let ns ← (← rest.head?).toNat?
+    let rest := rest.drop 1
+    if rest.length < ns then none
+    let senv ← nats (rest.take ns)
+    let c ← condOfTokens (rest.drop ns)
+    if !(condTyped c && Compile.inModel c) then none
+    let o := Compile.compileCond (· + 1) (· + (ni + 1)) (· + 1) c ⟨ni + nb, []⟩
+    let rf : Compile.RegFile := fun r =>
+      if r = 0 then junk
+      else if r ≤ ni then (match env[r - 1]? with | some z => reg z | none => junk)
+      else match benv[r - ni - 1]? with
+        | some b => if b then 1 else 0
+        | none => junk
+    let slen : Nat → Nat := fun r => (senv[r - 1]?).getD 0
+    let vm ← showBool ((Compile.runCond o.st.consts slen o rf).map (·.2))
+    let spec ← showBool (Compile.evalCond env benv senv c)
+    pure (vm ++ " " ++ spec)
   | _ => none
 
 end ScriggoV.Drv.C01
